@@ -1,5 +1,6 @@
 import Walrus.Proofs.ParseView
 import Walrus.Proofs.Body
+import Walrus.Agree
 
 /-!
 The body round trip in source terms (C03): what `emit ∘ parse` writes for a well-nested body is
@@ -8,33 +9,6 @@ names, their immediates, entity operands taken through the parse-time and emit-t
 branch depths, block types in normal form, an `else` for every `if` — and nothing else.
 -/
 namespace Walrus
-
-def transfers (n : String) : Bool := n = "Br" || n = "BrTable" || n = "Return" || n = "Unreachable"
-
-/-- operands of a surviving plain operator: parse-time map, then emit-time map -/
-def outArgs (e : PEnv) (m : IdMaps) (args : List Arg) : Option (List Arg) :=
-  (pMapArgs e (wrapOffsets args)).bind (mapArgs m)
-
-/-- the block type written for a construct -/
-def outBt (e : PEnv) (m : IdMaps) (o : Op) : Option Arg := ((btOf o).bind (seqTyOfBt e)).bind (blockTy m)
-
-/-- what one non-structural operator contributes when its frame is reachable -/
-def outLeaf (e : PEnv) (m : IdMaps) (o : Op) (loc : Nat) : Option (List (Nat × Op)) :=
-  if o.name = "Br" then
-    match labelsOf o with
-    | [n] => some [(loc, ⟨"Br", [.ref "l" n]⟩)]
-    | _ => none
-  else if o.name = "BrIf" then
-    match labelsOf o with
-    | [n] => some [(loc, ⟨"BrIf", [.ref "l" n]⟩)]
-    | _ => none
-  else if o.name = "BrTable" then
-    match (labelsOf o).reverse with
-    | d :: ts => some [(loc, ⟨"BrTable", ts.reverse.map (Arg.ref "l") ++ [.ref "l" d]⟩)]
-    | [] => none
-  else if o.name = "Return" || o.name = "Unreachable" then (mapArgs m o.args).map fun a => [(loc, ⟨o.name, a⟩)]
-  else if o.name = "Nop" then some []
-  else (outArgs e m o.args).map fun a => [(loc, ⟨o.name, a⟩)]
 
 mutual
 /-- output of one source construct: the operators with their locations, and whether the rest of the
